@@ -16,7 +16,8 @@ def main():
   ap.add_argument('--runs', type=int, default=200)
   ap.add_argument('--tier', default='quick')
   a = ap.parse_args()
-  out = {}
+  res = os.path.join(V, 'tools', 'determinism_RESULTS.json')
+  out = json.load(open(res)) if os.path.exists(res) else {}
   bad = 0
   for p in a.props.split(','):
     digs = []
